@@ -267,6 +267,9 @@ var pool32 = []uint32{0, 1, 2, 255, 256, 65535, 65536, 0xffffff, 0x1000000, 0xff
 func genU32(r *Rand) uint32 {
 	switch r.Intn(3) {
 	case 0:
+		if ds := dictIntsOf(32); len(ds) > 0 && r.Intn(4) == 0 { // a number the source itself names
+			return uint32(ds[r.Intn(len(ds))])
+		}
 		return pool32[r.Intn(len(pool32))]
 	case 1:
 		return uint32(1) << uint(r.Intn(32))
@@ -277,12 +280,23 @@ func genU32(r *Rand) uint32 {
 var yearPool = []int{1, 2, 999, 1000, 1969, 1999, 2000, 2024, 2068, 2069, 9999}
 
 func genYMD(r *Rand) (int, int, int) {
+	if ds := sourceDict().Dates; len(ds) > 0 && r.Intn(12) == 0 { // a date the source itself names
+		t := ds[r.Intn(len(ds))]
+		if !(t.Year() == 1 && t.Month() == 1 && t.Day() == 1) {
+			return t.Year(), int(t.Month()), t.Day()
+		}
+	}
 	if r.Intn(6) == 0 { // the two days around a year end (leap and common years): day 366 / day 1
 		y := []int{2024, 2020, 2000, 2023, 1999, 2028, 2100}[r.Intn(7)]
 		if r.Intn(2) == 0 {
 			return y, 12, 31
 		}
 		return y + 1, 1, 1
+	}
+	if r.Intn(12) == 0 { // all eight digits from a two- or three-digit alphabet
+		if ft, ok := fewDigitDateTime(r); ok && !(ft.Year() == 1 && ft.Month() == 1 && ft.Day() == 1) {
+			return ft.Year(), int(ft.Month()), ft.Day()
+		}
 	}
 	y := yearPool[r.Intn(len(yearPool))]
 	if r.Intn(2) == 0 {
@@ -400,6 +414,17 @@ func genLeaf(r *Rand, v reflect.Value, f LField, mode int) {
 	case "types.DateTime", "*types.DateTime":
 		y, m, d := genYMD(r)
 		t := time.Date(y, time.Month(m), d, r.Intn(24), r.Intn(60), r.Intn(60), 0, time.UTC)
+		if r.Intn(8) == 0 { // round times of day
+			t = time.Date(y, time.Month(m), d, []int{0, 0, 12, 23}[r.Intn(4)], []int{0, 59}[r.Intn(2)], []int{0, 59}[r.Intn(2)], 0, time.UTC)
+		}
+		if ds := sourceDict().DateTimes; len(ds) > 0 && r.Intn(8) == 0 { // a date-time the source itself names
+			t = ds[r.Intn(len(ds))]
+		}
+		if r.Intn(8) == 0 { // all fourteen digits from a two- or three-digit alphabet
+			if ft, ok := fewDigitDateTime(r); ok {
+				t = ft
+			}
+		}
 		if edge {
 			switch r.Intn(3) {
 			case 0:
